@@ -9,22 +9,30 @@
 package poseidon
 
 //@ def canonState(s) = forall(i, 0, 12, canon(s[i]))
-//@ def pow7(x) = (x * x * x * x * x * x * x) % P
+//@ def c3(x) = (x * x * x) % P
+//@ def k3(x) = (x * x * x) / P
 
-// ---- specification of the permutation (states are 12-tuples of integers in [0,P))
-//@ def sp_const(s, r) = mktuple(12, i, (s[i] + ALL_ROUND_CONSTANTS[i + 12*r]) % P)
+// ---- specification of the permutation (states are 12-tuples of integers in [0,P)).
+// Scalar building blocks are `opaque`: they are uninterpreted in every VC except those of
+// the contracts that `reveal` them (the function that implements that block).
+//@ opaque def pow7(x) = (x * x * x * x * x * x * x) % P
+//@ opaque def sp_add_rc(x, k) = (x + ALL_ROUND_CONSTANTS[k]) % P
+//@ opaque def sp_mds_row(s, r) = (sum(i, 0, 12, s[(i + r) % 12] * MDS_MATRIX_CIRC[i]) + s[r] * MDS_MATRIX_DIAG[r]) % P
+//@ opaque def sp_add_pfirst(x, i) = (x + FAST_PARTIAL_FIRST_ROUND_CONSTANT[i]) % P
+//@ opaque def sp_pinit_col(s, d) = sum(r, 1, 12, s[r] * FAST_PARTIAL_ROUND_INITIAL_MATRIX[r-1][d-1]) % P
+//@ opaque def sp_pfast_d(s, r) = (s[0] * MDS0TO0 + sum(j, 1, 12, s[j] * FAST_PARTIAL_ROUND_W_HATS[r][j-1])) % P
+//@ opaque def sp_pfast_i(s, r, i) = (s[0] * FAST_PARTIAL_ROUND_VS[r][i-1] + s[i]) % P
+//@ opaque def sp_add_prc(x, r) = (x + FAST_PARTIAL_ROUND_CONSTANTS[r]) % P
+//@ def sp_const(s, r) = mktuple(12, i, sp_add_rc(s[i], i + 12*r))
 //@ def sp_sbox(s) = mktuple(12, i, pow7(s[i]))
-//@ def sp_mds_row(s, r) = (sum(i, 0, 12, s[(i + r) % 12] * MDS_MATRIX_CIRC[i]) + s[r] * MDS_MATRIX_DIAG[r]) % P
 //@ def sp_mds(s) = mktuple(12, r, sp_mds_row(s, r))
 //@ def sp_full_round(s, r) = sp_mds(sp_sbox(sp_const(s, r)))
 //@ def sp_full_rounds(s, r0) = iterate(4, k, acc, s, sp_full_round(acc, r0 + k))
-//@ def sp_pfirst(s) = mktuple(12, i, (s[i] + FAST_PARTIAL_FIRST_ROUND_CONSTANT[i]) % P)
-//@ def sp_pinit_elem(s, d) = ite(d == 0, s[0], sum(r, 1, 12, s[r] * FAST_PARTIAL_ROUND_INITIAL_MATRIX[r-1][ite(d == 0, 0, d-1)]) % P)
-//@ def sp_pinit(s) = mktuple(12, d, sp_pinit_elem(s, d))
-//@ def sp_pfast_elem(s, r, i) = ite(i == 0, (s[0] * MDS0TO0 + sum(j, 1, 12, s[j] * FAST_PARTIAL_ROUND_W_HATS[r][j-1])) % P, (s[0] * FAST_PARTIAL_ROUND_VS[r][ite(i == 0, 0, i-1)] + s[i]) % P)
-//@ def sp_pfast(s, r) = mktuple(12, i, sp_pfast_elem(s, r, i))
+//@ def sp_pfirst(s) = mktuple(12, i, sp_add_pfirst(s[i], i))
+//@ def sp_pinit(s) = mktuple(12, d, ite(d == 0, s[0], sp_pinit_col(s, ite(d == 0, 1, d))))
+//@ def sp_pfast(s, r) = mktuple(12, i, ite(i == 0, sp_pfast_d(s, r), sp_pfast_i(s, r, ite(i == 0, 1, i))))
 //@ def sp_set0(s, v) = mktuple(12, i, ite(i == 0, v, s[i]))
-//@ def sp_partial_round(s, r) = sp_pfast(sp_set0(s, (pow7(s[0]) + FAST_PARTIAL_ROUND_CONSTANTS[r]) % P), r)
+//@ def sp_partial_round(s, r) = sp_pfast(sp_set0(s, sp_add_prc(pow7(s[0]), r)), r)
 //@ def sp_partial_rounds(s) = iterate(22, k, acc, sp_pinit(sp_pfirst(s)), sp_partial_round(acc, k))
 //@ def sp_poseidon(s) = sp_full_rounds(sp_partial_rounds(sp_full_rounds(s, 0)), 26)
 
@@ -32,7 +40,9 @@ package poseidon
 //@   props C05 C09
 //@   circuit
 //@   requires chipok(c.Gl) && canon(x)
+//@   reveal pow7
 //@   ensures canon(res)
+//@   assert x.Limb*x.Limb*x.Limb*x.Limb*x.Limb*x.Limb*x.Limb == x.Limb*c3(x.Limb)*c3(x.Limb) + P*(x.Limb*(2*k3(x.Limb)*c3(x.Limb) + k3(x.Limb)*k3(x.Limb)*P))
 //@   ensures res.Limb == pow7(x.Limb)
 
 //@ func (c *GoldilocksChip) constantLayer(state GoldilocksState, roundCounter *int) (res GoldilocksState)
@@ -40,6 +50,7 @@ package poseidon
 //@   circuit
 //@   requires chipok(c.Gl) && canonState(state) && 0 <= *roundCounter && *roundCounter < 30
 //@   ensures canonState(res)
+//@   reveal sp_add_rc
 //@   ensures *roundCounter == old(*roundCounter)
 //@   ensures res == sp_const(state, *roundCounter)
 
@@ -54,6 +65,8 @@ package poseidon
 //@   props C05 C09
 //@   circuit
 //@   requires chipok(c.Gl) && canonState(v) && 0 <= r && r < 12
+//@   cases r 0 12
+//@   reveal sp_mds_row
 //@   ensures canon(res)
 //@   ensures res.Limb == sp_mds_row(v, r)
 
@@ -69,6 +82,7 @@ package poseidon
 //@   circuit
 //@   requires chipok(c.Gl) && canonState(state)
 //@   ensures canonState(res)
+//@   reveal sp_add_pfirst
 //@   ensures res == sp_pfirst(state)
 
 //@ func (c *GoldilocksChip) mdsPartialLayerInit(state GoldilocksState) (res GoldilocksState)
@@ -76,12 +90,15 @@ package poseidon
 //@   circuit
 //@   requires chipok(c.Gl) && canonState(state)
 //@   ensures canonState(res)
+//@   reveal sp_pinit_col
 //@   ensures res == sp_pinit(state)
 
 //@ func (c *GoldilocksChip) mdsPartialLayerFast(state GoldilocksState, r int) (res GoldilocksState)
 //@   props C05 C09
 //@   circuit
 //@   requires chipok(c.Gl) && canonState(state) && 0 <= r && r < 22
+//@   cases r 0 22
+//@   reveal sp_pfast_d sp_pfast_i
 //@   ensures canonState(res)
 //@   ensures res == sp_pfast(state, r)
 
@@ -89,5 +106,6 @@ package poseidon
 //@   props C05 C09
 //@   circuit
 //@   requires chipok(c.Gl) && canonState(input)
+//@   reveal sp_add_prc
 //@   ensures canonState(res)
 //@   ensures res == sp_poseidon(input)
